@@ -20,6 +20,11 @@ def ctor(K, elems):
     return '%s::new(%s)' % (K, ', '.join(elems))
 
 
+SC_PRELUDE = '''
+#[derive(Clone, Copy)] pub struct Sc(pub f32);
+macro_rules! sc_muladd { ($($S:ty, $A:ty, $B:ty);+) => { $(impl<'a, 'b, 'c> vek::ops::MulAdd<$A, $B> for $S { type Output = Sc; #[inline] fn mul_add(self, a: $A, b: $B) -> Sc { Sc(self.0 * a.0 + b.0) } })+ } }
+sc_muladd!{Sc, Sc, Sc; Sc, Sc, &'b Sc; Sc, &'a Sc, Sc; Sc, &'a Sc, &'b Sc; &'c Sc, Sc, Sc; &'c Sc, Sc, &'b Sc; &'c Sc, &'a Sc, Sc; &'c Sc, &'a Sc, &'b Sc}
+'''
 PER_TYPE_RED = ['i8', 'i16', 'i64', 'u8', 'u16', 'u32', 'u64', 'f64'] + ['core::num::Wrapping<%s>' % t for t in ('i8', 'i16', 'i32', 'i64', 'u8', 'u16', 'u32', 'u64')]
 PER_TYPE_SV = ['i8', 'i16', 'i32', 'i64', 'u8', 'u16', 'u32', 'u64', 'f64']
 
@@ -62,6 +67,13 @@ def build_roots(kinds, tier='thorough'):
         for fk, (x, y, z) in {'vvv': ('a', 'b', 'c')}.items():  # the reference forms need `&T: MulAdd`, which no primitive provides
             nm = 'r_fma_%s_%s' % (fk, K)
             add(nm, 'pub fn %s(a: %s, b: %s, c: %s) -> %s { vek::ops::MulAdd::mul_add(%s, %s, %s) }' % (nm, VF, VF, VF, VF, x, y, z), kind='fma', K=K)
+        # the seven forms with a borrowed operand need `&T: MulAdd` / `T: MulAdd<&T, ..>`, which no primitive provides: analysed with the
+        # scalar type `Sc` of the generated crate, which implements all eight forms as self*a + b
+        VS = '%s<Sc>' % K
+        for fk, (x, y, z) in {'vvr': ('v', 'a', '&b'), 'vrv': ('v', '&a', 'b'), 'vrr': ('v', '&a', '&b'), 'rvv': ('&v', 'a', 'b'), 'rvr': ('&v', 'a', '&b'), 'rrv': ('&v', '&a', 'b'), 'rrr': ('&v', '&a', '&b'), 'vvv': ('v', 'a', 'b')}.items():
+            nm = 'r_fmasc_%s_%s' % (fk, K)
+            add(nm, 'pub fn %s(v: %s, a: %s, b: %s) -> %s { vek::ops::MulAdd::mul_add(%s, %s, %s) }' % (nm, VS, VS, VS, VS, x, y, z), kind='fmasc', K=K)
+        add('r_fma_free_%s' % K, 'pub fn r_fma_free_%s(a: %s, b: %s, c: %s) -> %s { vek::ops::mul_add(a, b, c) }' % (K, VF, VF, VF, VF), kind='fma', K=K)
         add('r_fma_inh_%s' % K, 'pub fn r_fma_inh_%s(a: %s, b: %s, c: %s) -> %s { %s::mul_add(a, b, c) }' % (K, VF, VF, VF, VF, K), kind='fma', K=K)
         add('r_fma_inhs_%s' % K, 'pub fn r_fma_inhs_%s(a: %s, b: f32, c: f32) -> %s { %s::mul_add(a, b, c) }' % (K, VF, VF, K), kind='fma_s', K=K)
         # reductions
@@ -183,7 +195,7 @@ def run(ctx):
     feats = QUICK_FEATURES if ctx.tier == 'quick' else ALL_FEATURES
     kinds = vec_kinds(feats)
     roots, meta = build_roots(kinds, ctx.tier)
-    sc = ctx.scan(roots, feats)
+    sc = ctx.scan(roots, feats, extra_prelude=SC_PRELUDE)
     if sc.compile_error: return
     done = 0
     for r in roots:
@@ -209,6 +221,10 @@ def run(ctx):
             elif k == 'fma':
                 Bv = vsyms('a1', K); Cv = vsyms('a2', K)
                 vec_eq(ctx, key, single().ret, [A[i] * Bv[i] + Cv[i] for i in range(n)], 'alg=: fused multiply-add per element', w)
+            elif k == 'fmasc':
+                L = lambda arg: [sym('%s.%s.0' % (arg, f)) for f in flds]
+                v, a, b = L('a0'), L('a1'), L('a2')
+                vec_eq(ctx, key, single().ret, [v[i] * a[i] + b[i] for i in range(n)], 'alg=: fused multiply-add per element, every owned / borrowed operand form', w)
             elif k == 'fma_s':
                 vec_eq(ctx, key, single().ret, [A[i] * sym('a1') + sym('a2') for i in range(n)], 'alg=: fused multiply-add with broadcast scalars', w)
             elif k == 'red':
@@ -330,4 +346,4 @@ def run(ctx):
             ctx.ob(key + '/paths', False, 'branch-free', w, 'one path', str(e))
     ctx.floor('roots analysed', done, len(roots))
     ctx.floor('vector kinds', len(kinds), 13)
-    ctx.floor('API uses generated (counted at implementation time)', len(roots), 2852)
+    ctx.floor('API uses generated (counted at implementation time)', len(roots), 2969)
